@@ -1,0 +1,37 @@
+// Copyright 2023 StreamNative, Inc.
+//
+// Licensed under the Apache License, Version 2.0 (the "License");
+// you may not use this file except in compliance with the License.
+// You may obtain a copy of the License at
+//
+//     http://www.apache.org/licenses/LICENSE-2.0
+//
+// Unless required by applicable law or agreed to in writing, software
+// distributed under the License is distributed on an "AS IS" BASIS,
+// WITHOUT WARRANTIES OR CONDITIONS OF ANY KIND, either express or implied.
+// See the License for the specific language governing permissions and
+// limitations under the License.
+
+//go:build verif
+
+package wal
+
+import (
+	"time"
+
+	time2 "github.com/oxia-db/oxia/common/time"
+)
+
+// NewWalForVerif exposes the clock and the trimmer interval to external runtime monitors.
+func NewWalForVerif(namespace string, shard int64, options *FactoryOptions, commitOffsetProvider CommitOffsetProvider,
+	clock time2.Clock, trimmerCheckInterval time.Duration) (Wal, error) {
+	return newWal(namespace, shard, options, commitOffsetProvider, clock, trimmerCheckInterval)
+}
+
+// VerifLastAppendedOffset returns the appended (possibly not yet synced) head of a WAL.
+func VerifLastAppendedOffset(w Wal) int64 {
+	if impl, ok := w.(*wal); ok {
+		return impl.lastAppendedOffset.Load()
+	}
+	return w.LastOffset()
+}
